@@ -11,6 +11,11 @@ import (
 // contractFrame turns the `modifies` clause of a contract into modKeys (used where the frame is needed without a
 // call site: loop havoc, callers without contract application). Anything it cannot resolve becomes "everything".
 func (e *Engine) contractFrame(ct *spec.FuncContract, sig *types.Signature, fn *ssa.Function, ms *modset) {
+	e.contractFrameFor(ct, ct, sig, fn, ms)
+}
+
+// contractFrameFor: ct may be a filtered copy of the registered contract orig.
+func (e *Engine) contractFrameFor(ct, orig *spec.FuncContract, sig *types.Signature, fn *ssa.Function, ms *modset) {
 	names := formalNames(ct, fn, sig, sig.Recv() != nil && fn == nil)
 	typeOf := func(name string) types.Type {
 		var ts []types.Type
@@ -110,7 +115,7 @@ func (e *Engine) contractFrame(ct *spec.FuncContract, sig *types.Signature, fn *
 				} else if fn != nil && fn.Parent() != nil && fn.Parent().Pkg != nil {
 					pkg = fn.Parent().Pkg.Pkg
 				}
-				if p := e.ContractPkg[ct]; p != nil {
+				if p := e.ContractPkg[orig]; p != nil {
 					pkg = p
 				}
 				if keys, err := e.fieldsKeys(pkg, m.Args[1:]); err == nil {
